@@ -35,6 +35,10 @@ def run(tier):
             b = run_.add(tag, p["q"], db, {"partitions": 2, "optimizer": False})
             if a and b:
                 run_.pairs.append((a["id"], b["id"]))
+    # deterministic replay of a recorded finding (KF-SEMI-REORDER-RELID)
+    a = run_.add("kf/semi_reorder", rel.KF_SEMI_REORDER, rel.KF_DB, {"partitions": 2, "optimizer": True})
+    b = run_.add("kf/semi_reorder", rel.KF_SEMI_REORDER, rel.KF_DB, {"partitions": 2, "optimizer": False})
+    run_.pairs.append((a["id"], b["id"]))
     run_.execute()
     mism = run_.judge()
     # measured non-triviality: how often does the optimizer actually change the plan?
